@@ -6,7 +6,7 @@ from hypothesis import strategies as st
 from hgv import gen
 from hgv.runner import Result, Viol
 from hgv.schedmodel import Walk
-from hgv.worker import HarnessError
+from hgv.worker import HarnessError, Rejected
 
 ID = "C02"
 RULE = ("Programs are constructed by Hypothesis from scripted sources, self-scheduling timer nodes (relative/absolute/"
@@ -100,7 +100,7 @@ def check(case, ctx) -> Result:
         res.violations.append(Viol("engine_crash", f"worker died: {resp.get('signal')} {resp.get('stderr', '')[-400:]}"))
         return res
     if not resp.get("built"):
-        raise HarnessError(f"C02 generator produced a program the tree rejects: {resp.get('error')}")
+        raise Rejected(f"C02 generator produced a program the tree rejects: {resp.get('error')}")
     if resp.get("error"):
         res.violations.append(Viol("run_failed", f"run() threw on a valid program: {resp['error']}"))
     w = Walk(case, resp).run()
